@@ -24,7 +24,7 @@ SPEC = dict(
     assumptions=["the sampler's answer (rate, keep, reason, key) and StressRelief.GetSampleRate's answer are parameters (recorded from the real objects)",
                  "decision records are not evicted (caches sized accordingly); the cuckoo drop filter has no false positives on the generated ids",
                  "additional attribute keys are distinct from the field names Refinery writes itself",
-                 "one collector step at a time (workers parked; sendTraces run synchronously on one trace)",
+                 "one collector step at a time (workers parked; the sendTraces goroutine is given one trace and awaited)",
                  "count fields left on a root by send() under the configuration in force at decision time are tolerated by the monitor when the option was switched off between decision and forwarding (the model reproduces them exactly)"],
     manifest=dict(
         text="Lean theorems over all configurations, traces and histories of the collector model: decorated_ontime / decorated_late / "
